@@ -84,7 +84,7 @@ func init() {
 		Technique:   "shadow-copy monitor with capacity-region sentinels; result re-read after later calls",
 		Assumptions: []string{"helpers whose arguments are strings/scalars only cannot disturb them (Go strings are immutable) and are listed, not executed", "views (Drop, Chunk) may alias their argument; only writes are judged", "the documented in-place helpers are Reverse, Reject, Omit, OmitBy, heap.FromSlice, heap.Sort"}})
 	reg(&propCfg{ID: "C18", Pkg: "./props/c18", Variants: simple(false),
-		Level:       "held on every executed case: complete enumeration of n in -2..8 x 0..12 calls x counter types for After/Before, 0..12 calls for Once, n in -2..8 x all 511 success/failure patterns up to length 8 for Retry and RetryWithDelay (the latter inside testing/synctest bubbles: gaps between attempts are exact virtual-time differences)",
+		Level:       "held on every executed case: complete enumeration of n in -2..8 x 0..12 calls x counter types for After/Before, 0..12 calls x first result {10, 0, -1, 1} for Once with int, bool and string results (the zero value must be cached like any other), n in -2..8 x all 511 success/failure patterns up to length 8 for Retry and RetryWithDelay (the latter inside testing/synctest bubbles: the wait between the end of one attempt and the start of the next is an exact virtual-time difference, also when the attempts themselves take time shorter than, equal to or longer than the delay)",
 		Technique:   "counting-callback monitor over complete enumeration; virtual time (testing/synctest) for the delay clause",
 		Assumptions: []string{"the fake clock of testing/synctest is trusted as the time source the library reads", "not asserted: Retry's error value for n <= 0; counter wrap-around of narrow integer types after > 127 calls"}})
 	reg(&propCfg{ID: "C08", Pkg: "./props/c08", Variants: simple(false),
